@@ -34,3 +34,12 @@ claim("C24", "TLC model checking of spec/Sweep.tla (the edge-diff loop of _count
       "exhaustive in the bounded TSGen scope for the design; the code is compared exactly (integers) with the "
       "specification's final state on every replayed behaviour; TreeSeq's model of tskit is checked against tskit",
       TB)
+
+claim("C36", "TLC model checking of spec/Cache.tla (3 concurrent runs, writer crashes, per-descriptor offsets; Safe, NoError, "
+      "FinalNeverTorn, liveness under weak fairness) for the protocol variant detected in /repo + replay of TLC "
+      "behaviours (counterexample or simulated) on the real code through gated file-system calls + TLC validation "
+      "(CacheCrash) of crash experiments at every byte offset of the written file",
+      "exhaustive over interleavings of 3 processes with one crash for the design; the code is stepped along TLC "
+      "behaviours and its real file content / tables compared with the model state; crash offsets enumerated on "
+      "the real file",
+      TB + "; threads with gated fs calls stand for processes")
